@@ -1,0 +1,38 @@
+//go:build verif
+
+package svg
+
+// Read-only accessors used by the C18 correspondence harness (/verif/go/cmd/c18).
+
+// VerifPathOp is one backend path operation produced by the path parser.
+// Kind: 0 moveTo, 1 lineTo, 2 cubicTo, 3 close. Args holds the three points
+// (x, y) of the pathItem (unused ones are zero).
+type VerifPathOp struct {
+	Kind uint8
+	Args [6]Fl
+}
+
+// VerifParsePath runs pathParser.parsePath on a fresh parser.
+func VerifParsePath(d string) ([]VerifPathOp, error) {
+	var c pathParser
+	items, err := c.parsePath(d)
+	if err != nil {
+		return nil, err
+	}
+	out := make([]VerifPathOp, len(items))
+	for i, it := range items {
+		out[i].Kind = uint8(it.op)
+		for j, p := range it.args {
+			out[i].Args[2*j], out[i].Args[2*j+1] = p.x, p.y
+		}
+	}
+	return out, nil
+}
+
+// VerifParsePoints exposes parsePoints (number scanner).
+func VerifParsePoints(s string, isEllipticalArc bool) ([]Fl, error) {
+	return parsePoints(s, nil, isEllipticalArc)
+}
+
+// VerifParseViewbox exposes parseViewbox.
+func VerifParseViewbox(s string) (Rectangle, error) { return parseViewbox(s) }
